@@ -2,7 +2,7 @@
 (* constant definitions for the exhaustive configurations of Resolver.tla *)
 EXTENDS Resolver
 CoefPrimes == <<2, 3, 5, 7, 11, 13, 17, 19, 23>>      \* distinct primes: a polynomial identity test
-CoefMixed  == <<3, -1, 0, 2, -1, 5, 3, 0, -2>>        \* negative, zero and repeated coefficients
+CoefMixed  == <<1, -1, 0, 2, 1, 5, 3, 0, -2>>         \* one, negative, zero and repeated coefficients
 CoefOnes   == <<1>>
 
 (* chain family for C11: r1 -> r2 -> ... -> rL -> t, where t is the basic element (L references *)
